@@ -31,6 +31,13 @@ def run(ctx):
             doc = gc.concretise(g, types, rnd, rich=True)
             e = dc.ev_doc("d%dr%d" % (i, rep), doc, schema, route="etree", label="generated", expect="")
             evs.append(e)
+            # the same kind of document as wire text (XML / SGML) through the real parser
+            gc.MULTILINE[0] = True
+            try:
+                wdoc = gc.concretise(g, types, rnd, rich=True, wire=True)
+            finally:
+                gc.MULTILINE[0] = False
+            evs.append(dc.ev_doc("w%dr%d" % (i, rep), wdoc, schema, route=rnd.choice(["xml", "sgml"]), label="generated-wire", expect=""))
             roots.add(g[0]["tag"])
             if sum(1 for t in doc if t["e"] == "leaf") >= 2:
                 ctx.nontrivial.add(dc.doc_text(doc))
